@@ -298,6 +298,29 @@ func positionsCheck(c *core.Ctx, devs []string) {
 			loadable = append(loadable, gs.doc.SDL())
 		}
 	}
+	// faults whose two halves stand in DIFFERENT files (a definition here, the clashing extension there): every
+	// location of the error lies in the file the error names. One file per item, in both orders, each file laid
+	// out differently so that a position of one file is no token start of the other.
+	for _, its := range crossFileFaults {
+		for _, rev := range []bool{false, true} {
+			var srcs []*ast.Source
+			for k := range its {
+				j := k
+				if rev {
+					j = len(its) - 1 - k
+				}
+				pad := strings.Repeat("\n", 2*j) + strings.Repeat(" ", 3*j+1)
+				srcs = append(srcs, &ast.Source{Name: fmt.Sprintf("x%d.graphql", j), Input: "# file " + fmt.Sprint(j) + "\n" + pad + strings.ReplaceAll(its[j], " { ", " {\n"+pad+"  ")})
+			}
+			all := append([]*ast.Source{{Name: validator.Prelude.Name, Input: ""}}, srcs...)
+			_, err := gqlparser.LoadSchema(srcs...)
+			if err != nil {
+				if locs := errLocs(err, all); len(locs) > 0 && locs[0].Src != 1 {
+					add("schema error across files", all, []posRec{}, locs, false)
+				}
+			}
+		}
+	}
 	// (D) validation errors
 	for _, sdl := range loadable {
 		ssrc := &ast.Source{Name: "schema.graphql", Input: sdl}
@@ -351,4 +374,21 @@ func positionsCheck(c *core.Ctx, devs []string) {
 		json.Unmarshal(raw, &b)
 		c.Violation(fmt.Sprintf("%s (source #%d offset %d line %d column %d): %s", b.Class, b.At.Src, b.At.S, b.At.L, b.At.C, descs[b.ID]), map[string]any{"what": b.Class, "at": b.At, "case": full[b.ID]})
 	}
+}
+
+// crossFileFaults: lists of items (one file each) that together violate one rule
+var crossFileFaults = [][]string{
+	{"type User { name: String id: ID }", "extend type User { name: String }", "type Query { u: User }"},
+	{"extend type User { a: Int }", "extend type User { b: Int a: Int }", "type User { id: ID }", "type Query { u: User }"},
+	{"type A { x: Int }", "type A { y: Int }", "type Query { a: A }"},
+	{"directive @d on FIELD", "directive @d on OBJECT", "type Query { a: Int }"},
+	{"interface I { x: Int }", "type T implements I { y: Int }", "type Query { t: T }"},
+	{"enum E { A B }", "extend enum E { C A }", "type Query { e: E }"},
+	{"union U = A", "extend union U = A", "type A { x: Int }", "type Query { u: U }"},
+	{"input In { a: Int }", "extend input In { b: Int a: Int }", "type Query { f(i: In): Int }"},
+	{"interface I { x(a: Int): Int }", "type T implements I { x(a: String): Int }", "type Query { t: T }"},
+	{"type T { f(a: Int, b: Int): Int }", "extend type T { g(a: Int, a: Int): Int }", "type Query { t: T }"},
+	{"scalar S", "extend type S { x: Int }", "type Query { s: S }"},
+	{"type Query { a: Missing }", "extend type Query { b: Gone }"},
+	{"directive @d(x: Int!) on OBJECT", "type T @d { x: Int }", "extend type T @e", "type Query { t: T }"},
 }
